@@ -46,6 +46,7 @@ func (c *Context) ResultCache() ResultCache {
 
 // RegisterCall registers a call
 func (c *Context) RegisterCall() {
+	verifPoint()
 	c.callCount++
 }
 
